@@ -66,7 +66,7 @@ Definition acquire_c (su : summ) : bool :=
 
 Definition cfg_programs : list stmt :=
   [prog_cfg_commit; prog_cfg_action; prog_cfg_include; prog_cfg_make_wsgi_app;
-   prog_cfg_route_prefix; prog_cfg_with].
+   prog_cfg_route_prefix; prog_cfg_with; prog_cfg_init].
 
 (* ================================================================ part (b) *)
 Local Open Scope N_scope.
@@ -411,7 +411,8 @@ Definition scope_table : list (stmt * N * (N * N)) :=
    (prog_exception_view, 0, (mk_excview, tag_exception_view));
    (prog_subrequest, 0, (mk_handle, tag_request_context));
    (prog_request_context_manual, 0, (mk_body, tag_request_context));
-   (prog_wsgi_call, 0, (mk_handle, tag_request_context))].
+   (prog_wsgi_call, 0, (mk_handle, tag_request_context));
+   (prog_cfg_init, 0, (mk_body, tag_configurator))].
 Definition sc_prog (e : stmt * N * (N * N)) : stmt := fst (fst e).
 Definition sc_cls (e : stmt * N * (N * N)) : N := snd (fst e).
 (* inner: 2 = the inner moment is not on this path, 1 = it happens under the expected frame, 0 = it does not *)
